@@ -67,6 +67,40 @@ mod sel {
         ran(&format!("hx_select_e2e::sel::ty_args::{t}::{n}"))
     }
 
+    // Names with commas (and spaces): a two-parameter generic type, tuple
+    // arguments, a string argument and a custom name.
+    pub struct Pair<A, B>(std::marker::PhantomData<(A, B)>);
+
+    pub trait PairTag {
+        const TAG: &'static str;
+    }
+    impl PairTag for Pair<u8, u8> {
+        const TAG: &'static str = "Pair<u8, u8>";
+    }
+    impl PairTag for Pair<u8, i8> {
+        const TAG: &'static str = "Pair<u8, i8>";
+    }
+
+    #[divan::bench(types = [Pair<u8, u8>, Pair<u8, i8>])]
+    fn pair<T: PairTag + 'static>() {
+        ran(&format!("hx_select_e2e::sel::pair::{}", T::TAG))
+    }
+
+    #[divan::bench(args = [(1, 2), (1, 3), (2, 2)])]
+    fn tuple(t: (i32, i32)) {
+        ran(&format!("hx_select_e2e::sel::tuple::({}, {})", t.0, t.1))
+    }
+
+    #[divan::bench(args = ["a,b", "a", "b", "a, b"])]
+    fn comma_str(s: &str) {
+        ran(&format!("hx_select_e2e::sel::comma_str::{s}"))
+    }
+
+    #[divan::bench(name = "x, y")]
+    fn named_comma() {
+        ran("hx_select_e2e::sel::x, y")
+    }
+
     pub mod alpha {
         use super::ran;
 
